@@ -3216,12 +3216,14 @@ fn convert_group_entry<'a>(
         is_cut = true;
       }
       Rule::member_key => {
+        #[cfg(feature = "ast-span")]
+        let key_span = pest_span_to_ast_span(&inner.as_span(), input);
         member_key = Some(convert_member_key_simple(
           inner,
           input,
           is_cut,
           #[cfg(feature = "ast-span")]
-          span,
+          key_span,
         )?);
       }
       Rule::type_expr => {
